@@ -292,6 +292,8 @@ pub struct Known {
     pub id: String,
     pub property: String,
     pub signature: String,
+    /// further panic sites / predicates at which the same root cause manifests
+    pub also: Vec<String>,
     pub what: String,
     pub requires: Vec<String>,
     pub requires_any: Vec<String>,
@@ -331,6 +333,7 @@ pub fn load_known(prop: &str) -> Vec<Known> {
                             property: p.to_string(),
                             signature: f.get("signature").and_then(|x| x.as_str()).unwrap_or("").to_string(),
                             what: f.get("what").and_then(|x| x.as_str()).unwrap_or("").to_string(),
+                            also: f.get("also").and_then(|x| x.as_array()).map(|a| a.iter().filter_map(|x| x.as_str().map(|s| s.to_string())).collect()).unwrap_or_default(),
                             requires_any: f.get("requires_any").and_then(|x| x.as_array()).map(|a| a.iter().filter_map(|x| x.as_str().map(|s| s.to_string())).collect()).unwrap_or_default(),
                             requires: f.get("requires").and_then(|x| x.as_array()).map(|a| a.iter().filter_map(|x| x.as_str().map(|s| s.to_string())).collect()).unwrap_or_default(),
                         });
@@ -343,7 +346,7 @@ pub fn load_known(prop: &str) -> Vec<Known> {
 }
 
 pub fn match_known<'a>(known: &'a [Known], sig: &str, traits: &[String]) -> Option<&'a Known> {
-    known.iter().find(|k| !k.signature.is_empty() && sig.starts_with(&k.signature) && k.requires.iter().all(|r| traits.contains(r)) && (k.requires_any.is_empty() || k.requires_any.iter().any(|r| traits.contains(r))))
+    known.iter().find(|k| !k.signature.is_empty() && (sig.starts_with(&k.signature) || k.also.iter().any(|a| !a.is_empty() && sig.starts_with(a))) && k.requires.iter().all(|r| traits.contains(r)) && (k.requires_any.is_empty() || k.requires_any.iter().any(|r| traits.contains(r))))
 }
 
 fn traits_of(v: &Value) -> Vec<String> {
